@@ -35,6 +35,10 @@ CLAIMED = {
          "Policy-decision half, decided inductively: one decide_should_retry step of Default / DowngradingConsistency / Fallthrough from an ARBITRARY session state, every RequestAttemptError and DbError variant with all scalar fields symbolic: non-idempotent requests are re-sent only after unavailable/bootstrapping/no-stream-id/read-timeout, never after broken connection/overloaded/server/truncate/write-timeout; Default never retries at serial consistency; same-target retries consume one-shot flags (bound 2 / 1 / 0); reset clears the flags.",
          "The executor honouring the decisions (async run_request_speculative_fiber, pager, speculative execution) is NOT decided. Trusted: mir2smt translator, models of derived PartialEq / reference comparisons / tracing-disabled, enum variant order parsed from source.",
          S),
+ "C08": ("DESIGN.md §5 C08",
+         "Absence of panic / out-of-bounds / arithmetic overflow (Kani's built-in checks, dev profile) for the synchronous low-level parsers on EVERY byte string of the stated small sizes: primitive readers (int, short, lengths, value, bytes, short bytes, consistency, uuid, long; thorough: string / long string), typed cells of 11 native carriers at every interesting body length (too short, exact, too long, invalid UTF-8, non-ASCII, out-of-range time), and the tracing-id part of parse_response_body_extensions; successful reads advance the cursor by exactly the bytes consumed and never past the end.",
+         "Sizes are tiny (<= 17 bytes) and lengths concrete per case (symbolic lengths do not finish in CBMC). NOT decided: the resource clauses (stack depth, allocation out of proportion: CBMC has no stack/heap-size model; see DESIGN §7 for the sites observed), result metadata / rows / ERROR / EVENT / SUPPORTED bodies, custom type parser, warnings and custom payload extensions (Vec<String>/HashMap construction), LZ4/Snappy, the async frame reader, container iterators on arbitrary bytes.",
+         K),
  "C09": ("DESIGN.md §5 C09",
          "QUERY requests: QueryParameters::serialize for every subset of the optional fields x small value lists, and the whole frame from SerializedRequest::make (version, flags incl. tracing and the compression bit, opcode, length field, body) are equal byte-for-byte to an independent CQL v4 encoder for all field values; the checked length writers refuse every oversize length (all usize values) and otherwise write the exact big-endian prefix.",
          "Only QUERY (and the parameter block shared with EXECUTE) plus the frame header are decided; EXECUTE ids, BATCH, PREPARE, REGISTER, OPTIONS, AUTH_RESPONSE, STARTUP bodies are not yet; LZ4/Snappy bodies are replaced by an opaque body (only the header of compressed frames is checked). Value lists <= 2 cells, paging state <= 2 bytes.",
